@@ -14,15 +14,15 @@ import (
 )
 
 type Ctx struct {
-	Prop   string
-	Tier   string
-	Seed   uint64
-	Rng    *Rng
-	D      *Driver
-	R      *Result
-	Replay string
+	Prop     string
+	Tier     string
+	Seed     uint64
+	Rng      *Rng
+	D        *Driver
+	R        *Result
+	Replay   string
 	Thorough bool
-	Verif  string // /verif root
+	Verif    string // /verif root
 }
 
 var props = map[string]func(*Ctx){}
